@@ -1669,9 +1669,11 @@ static int parse_loop_packets(struct scanner_s *scanner, cif_loop_tp *loop, stri
                                         case CIF_TRAVERSE_SKIP_SIBLINGS:
                                             scanner->skip_depth = 2;
                                             break;
-                                        case CIF_TRAVERSE_END:
+                                        case CIF_TRAVERSE_CONTINUE:
+                                            break;
+                                        default:
+                                            /* CIF_TRAVERSE_END or an error code: stop parsing */
                                             goto packets_end;
-                                        /* default: do nothing */
                                     }
                                 }
                             }
